@@ -24,6 +24,9 @@ SEEDS = [
     (GEO, 'random_filter', [{'points': T(B, 'N', 'D'), 'num': IntV()}]),
     (GEO, 'voxel_filter', [{'points': T('N', 'D'), 'voxel': TOP, 'random': IntV(val=False)},
                            {'points': T('N', 'D'), 'voxel': TOP, 'random': IntV(val=True)}]),
+    (GEO, 'pixel2point', [{'pixels': T(B, 'N', 2), 'depth': T(B, 'N'), 'intrinsics': T(B, 3, 3)},
+                          {'pixels': T('N', 2), 'depth': T('N'), 'intrinsics': T(3, 3)}]),
+    (GEO, 'point2pixel', [{'points': T(B, 'N', 3), 'intrinsics': T(B, 3, 3), 'extrinsics': NONE}]),
     ('pypose.module.icp', 'ICP.forward', [{'source': T(B, 'Ns', 'D'), 'target': T(B, 'Nt', 'D'), 'init': NONE, 'self.init': NONE},
                                            {'source': T('Ns', 'D'), 'target': T('Nt', 'D'), 'init': NONE, 'self.init': NONE}]),
     ('pypose.module.pf', 'PF.resample_particles', [{'q': T('P'), 'x': T('P', 'n'), 'self.particles': IntV(of=sym('P'))}]),
